@@ -25,6 +25,15 @@ class _FloatMeta(type):
     def __instancecheck__(cls, x):
         return isinstance(x, builtins.float) or (isinstance(x, Sym) and x.is_real())
 
+    def __eq__(cls, o):
+        return o is cls or o is builtins.float
+
+    def __ne__(cls, o):
+        return not cls.__eq__(o)
+
+    def __hash__(cls):
+        return hash(builtins.float)
+
 
 class sym_float(builtins.float, metaclass=_FloatMeta):
     def __new__(cls, x=0.0):
@@ -41,6 +50,15 @@ class _ComplexMeta(type):
     def __instancecheck__(cls, x):
         return isinstance(x, builtins.complex) or (isinstance(x, Sym) and not x.is_real())
 
+    def __eq__(cls, o):
+        return o is cls or o is builtins.complex
+
+    def __ne__(cls, o):
+        return not cls.__eq__(o)
+
+    def __hash__(cls):
+        return hash(builtins.complex)
+
 
 class sym_complex(builtins.complex, metaclass=_ComplexMeta):
     def __new__(cls, *a):
@@ -53,7 +71,7 @@ class sym_complex(builtins.complex, metaclass=_ComplexMeta):
 
 def sym_type(*a):
     if len(a) == 1 and isinstance(a[0], Sym):
-        return builtins.float if a[0].is_real() else builtins.complex
+        return sym_float if a[0].is_real() else sym_complex
     return builtins.type(*a)
 
 
